@@ -29,13 +29,19 @@ TRUSTED_EXTRA = ["reference parser in harness/props/c02.py (str.split based, wri
 
 MANIFEST = {
     "text": "Lean 4 model of the delimiter/field-offset table, CR adjustment, right-aligned zero-filled digit matrix, right-padded "
-            "identifier matrix, signed/optional ints, list columns, k-line roles, wrapped-FASTA join, SAM extra column, VCF POS-1, "
-            "interior-comment removal; unbounded theorems (fieldTable_spec, digitMatrix_value, ...) against lines.map(splitOn tab); "
-            "per-format schemas re-extracted from the running package into Gen/C02.lean and checked against the documented "
-            "column lists by decide. Correspondence: real parser vs Lean model vs Lean spec vs pure-Python reference parser on "
-            "grammar-generated files of every supported text format.",
-    "note": "floats are compared by value to 1e-12 (conversion itself is C18); INFO header dispatch and genotype matrices are "
-            "corresponded, not proved; files always end with a newline (C01 covers the rest).",
+            "identifier matrix, signed/optional ints, list columns, k-line roles, wrapped-FASTA seq_lens arithmetic, SAM extra column, "
+            "VCF POS-1, interior-comment removal. Unbounded theorems: fieldTable_spec (every byte string with uniform column count: "
+            "offset table = lines.map(splitOn TAB)), digitMatrix_value (row independence), intColumn_spec (digit-matrix path and sign "
+            "path both give the standard reading), idColumn_spec, listColumn_spec, optIntColumn_spec, kline_roles (FASTA/FASTQ line "
+            "roles from newline positions), fasta_seqLens, crAdjust/crField_spec, vcf_pos; refutations of the four shipped rules that "
+            "were repaired (splitRowsOld, optIntColumnOld, commentTableOld, seqLensOld). Per-format schemas, comment characters, "
+            "k-line layout and coordinate shifts are re-extracted from the running package into Gen/C02.lean every run and checked "
+            "against the documented formats by decide. Correspondence: real parser vs Lean model vs Lean spec vs pure-Python "
+            "reference parser on grammar-generated files of every supported text format (16 formats, 6 VCF buffer flavours).",
+    "note": "floats are compared by value to 1e-12 (conversion itself is C18) and stay text in the Lean model; typed INFO header "
+            "dispatch, genotype matrices, the SAM rest-of-line column and the per-file composition (table + typed columns, "
+            "parse_delimited) are corresponded, not proved; files always end with a newline (C01 covers the rest). Eight defects "
+            "found and fixed (known_findings.json).",
     "technique": "Lean 4 proof over an executable model + schemas regenerated from source (decide) + differential correspondence with the implementation",
     "design": "§6 C02",
 }
@@ -79,23 +85,27 @@ VCF_FLAVOURS = ["VCFBuffer", "VCFWithInfoAsStringBuffer", "VCFBuffer2", "VCFMatr
                 "PhasedHaplotypeVCFMatrixBuffer"]
 
 _TMP = None
+_TMP_OWNER = None
 
 
-def _tmpdir():
-    global _TMP
-    if _TMP is None or not os.path.isdir(_TMP) or _TMP_PID != os.getpid():
-        _new_tmp()
+def _tmproot():
+    """one scratch directory per check run, created in the parent process (cases() runs there, before the worker pool
+    is forked) and removed at its exit; forked workers use a sub-directory of it"""
+    global _TMP, _TMP_OWNER
+    if _TMP is None or not os.path.isdir(_TMP):
+        _TMP = tempfile.mkdtemp(prefix="c02-")
+        _TMP_OWNER = os.getpid()
+        atexit.register(shutil.rmtree, _TMP, True)
     return _TMP
 
 
-_TMP_PID = None
-
-
-def _new_tmp():
-    global _TMP, _TMP_PID
-    _TMP = tempfile.mkdtemp(prefix="c02-")
-    _TMP_PID = os.getpid()
-    atexit.register(shutil.rmtree, _TMP, True)
+def _tmpdir():
+    root = _tmproot()
+    if os.getpid() == _TMP_OWNER:
+        return root
+    d = os.path.join(root, str(os.getpid()))
+    os.makedirs(d, exist_ok=True)
+    return d
 
 
 def _buffer_type(name):
@@ -429,6 +439,7 @@ def _case(fmt, lines, crlf, via="open", flavour=None):
 
 
 def cases(tier, rng):
+    _tmproot()
     big = tier in ("thorough", "widen")
     mult = {"quick": 1, "thorough": 60, "widen": 4}[tier]
     # 1. exhaustive width vectors, BED3 (id,int,int) and chrom.sizes (str,int)
